@@ -608,14 +608,16 @@ def decode_dat(path, syms):
 
 def run_record(ctx, exe, datadir, gtfile, args, prog_args=(), timeout=40, taskset=None):
     uftrace = os.path.join(ctx.src, "uftrace")
-    cmd = ["timeout", "-s", "KILL", str(timeout)]
+    cmd = []
     if taskset:
         cmd += ["taskset", "-c", taskset]
     cmd += [uftrace, "record", "--libmcount-path=" + os.path.join(ctx.src, "libmcount"), "--no-pager", "--no-event",
             "-d", datadir] + list(args) + [exe, gtfile] + [str(a) for a in prog_args]
     # cwd: a -pg program may drop gmon.out
-    r = subprocess.run(cmd, stdout=subprocess.PIPE, stderr=subprocess.PIPE, text=True, cwd=os.path.dirname(exe))
-    return r.returncode, r.stdout, r.stderr
+    # own process group, killed as a whole afterwards: a tracee that outlives `uftrace record` (deadlocked in a
+    # broken libmcount) would otherwise keep the pipes open and the check would wait for ever
+    rc, out, err, timed_out = C.run_bounded(cmd, timeout, cwd=os.path.dirname(exe))
+    return (137 if timed_out else rc), out, err
 
 
 def shm_leftovers(datadir, remove=True):
